@@ -101,7 +101,9 @@ func (tm *TopicMetadata) decode(pd packetDecoder, version int16) (err error) {
 	if err != nil {
 		return err
 	}
-	tm.Partitions = make([]*PartitionMetadata, n)
+	if n >= 0 {
+		tm.Partitions = make([]*PartitionMetadata, n)
+	}
 	for i := 0; i < n; i++ {
 		tm.Partitions[i] = new(PartitionMetadata)
 		err = tm.Partitions[i].decode(pd, version)
@@ -164,7 +166,9 @@ func (r *MetadataResponse) decode(pd packetDecoder, version int16) (err error) {
 		return err
 	}
 
-	r.Brokers = make([]*Broker, n)
+	if n >= 0 {
+		r.Brokers = make([]*Broker, n)
+	}
 	for i := 0; i < n; i++ {
 		r.Brokers[i] = new(Broker)
 		err = r.Brokers[i].decode(pd, version)
@@ -194,7 +198,9 @@ func (r *MetadataResponse) decode(pd packetDecoder, version int16) (err error) {
 		return err
 	}
 
-	r.Topics = make([]*TopicMetadata, n)
+	if n >= 0 {
+		r.Topics = make([]*TopicMetadata, n)
+	}
 	for i := 0; i < n; i++ {
 		r.Topics[i] = new(TopicMetadata)
 		err = r.Topics[i].decode(pd, version)
